@@ -535,7 +535,7 @@ func runC09(c *Ctx) {
 }
 
 func runC16(c *Ctx) {
-	c.Rule = "(derivation) tokens created with root key id in {absent, 0, 1, 7, 2^31, 2^32-1} are attenuated, sealed and reloaded along random derivation histories (up to 8 steps); RootKeyID() is read after every derivation and must equal the creation id. (lookup) AuthorizerFor(WithRootPublicKeys(map, default)) with generated maps: the right key under the token's id, the right key only under a wrong id, only as default while the token carries an unknown id, empty keys, no default; the model's selectKey + chain walk decides; errors.Is(err, ErrNoPublicKeyAvailable) must hold exactly when the model says nokey. Non-trivial = the token carries an id and the map has at least two entries, or the history has at least two derivations; distinct = distinct (token bytes, map, default)."
+	c.Rule = "(derivation) tokens created with root key id in {absent, 0, 1, 7, 2^31, 2^32-1} are attenuated, sealed and reloaded along random derivation histories (up to 8 steps); RootKeyID() is read after every derivation and must equal the creation id. (lookup) AuthorizerFor(WithRootPublicKeys(map, default)) with generated maps: the right key under the token's id, the right key only under a wrong id, only as default while the token carries an unknown id, empty keys, no default; the model's selectKey + chain walk decides; errors.Is(err, ErrNoPublicKeyAvailable) must hold exactly when the model says nokey. (reuse) four key sources each used for a sequence of 40 (400) tokens with and without identifiers; within the process one key source value serves every case with the same map and default. Non-trivial = the token carries an id and the map has at least two entries, or the history has at least two derivations; distinct = distinct (token bytes, map, default)."
 	r := NewRng(c.Seed)
 	n := 1200
 	if c.Thorough {
@@ -545,6 +545,30 @@ func runC16(c *Ctx) {
 	other1, _, _ := ed25519.GenerateKey(&detRand{NewRng(5)})
 	other2, _, _ := ed25519.GenerateKey(&detRand{NewRng(6)})
 	idPool := []*uint32{nil, u32p(0), u32p(1), u32p(7), u32p(1 << 31), u32p(1<<32 - 1)}
+	var tokPool [][]byte
+	defer func() {
+		// (reuse) a few key sources, each used for a long sequence of tokens with and without
+		// identifiers: a lookup must not depend on the lookups made before it
+		sources := []string{
+			"(keys (7 " + hx(other1) + ") (0 " + hx(pub) + ")) (default " + hx(pub) + ")",
+			"(keys (7 " + hx(pub) + ") (1 " + hx(other1) + ")) (default " + hx(other2) + ")",
+			"(keys (0 " + hx(other1) + ") (4294967295 " + hx(pub) + ")) (default " + hx(pub) + ")",
+			"(keys (2147483648 " + hx(other2) + ")) (default none)",
+		}
+		steps := 40
+		if c.Thorough {
+			steps = 400
+		}
+		for _, srcSx := range sources {
+			for k := 0; k < steps && len(tokPool) > 0; k++ {
+				sx := "(case (bytes " + hx(Pick(r, tokPool)) + ") " + srcSx + ")"
+				res := execCase("CHAIN", sx)
+				c.Case("CHAIN", c.NewID("keyreuse"), sx, res)
+				c.NonTrivial(sx)
+				c.Count("reuse:" + strings.SplitN(res, " rootkeyid", 2)[0])
+			}
+		}
+	}()
 	for i := 0; i < n; i++ {
 		g := newScenGen(r, 0)
 		want := Pick(r, idPool)
@@ -632,6 +656,9 @@ func runC16(c *Ctx) {
 		default: // empty map, default right
 			dflt = hx(pub)
 		}
+		if len(tokPool) < 60 {
+			tokPool = append(tokPool, data)
+		}
 		sx := "(case (bytes " + hx(data) + ") " + sxList("keys", keyEntries) + " (default " + dflt + "))"
 		res := execCase("CHAIN", sx)
 		c.Case("CHAIN", c.NewID("keysel"), sx, res)
@@ -659,6 +686,14 @@ func runC17(c *Ctx) {
 		tok *biscuit.Biscuit
 		ids [][]byte
 		ev  []int
+		raw []byte // what Serialize() handed out when the token was made (the slice itself)
+		hex string // and what it contained then
+	}
+	withRaw := func(l live) live {
+		if d, err := l.tok.Serialize(); err == nil {
+			l.raw, l.hex = d, hx(d)
+		}
+		return l
 	}
 	for i := 0; i < n; i++ {
 		g := newScenGen(r, 0)
@@ -670,7 +705,7 @@ func runC17(c *Ctx) {
 		}
 		rd := &detRand{r.Fork()}
 		nextEvent++
-		fam := []live{{t0, t0.RevocationIds(), []int{nextEvent}}}
+		fam := []live{withRaw(live{tok: t0, ids: t0.RevocationIds(), ev: []int{nextEvent}})}
 		identical := false
 		steps := 2 + r.Intn(11)
 		forkAgain := -1
@@ -740,13 +775,19 @@ func runC17(c *Ctx) {
 			if hexList(p.tok.RevocationIds()) != hexList(p.ids) {
 				c.Violate("C17/parent-changed", "a derivation changed the parent's revocation ids", map[string]interface{}{"op": op})
 			}
-			fam = append(fam, live{child, ids, ev})
+			fam = append(fam, withRaw(live{tok: child, ids: ids, ev: ev}))
 			// stability: what every live token reports must be what it reported when it was made
 			for li, l := range fam {
 				if now := l.tok.RevocationIds(); hexList(now) != hexList(l.ids) {
 					c.Violate("C17/ids-changed", fmt.Sprintf("operation %s on another token changed the revocation ids reported by live token %d", op, li),
 						map[string]interface{}{"op": op, "before": hexList(l.ids), "after": hexList(now)})
 					fam[li].ids = now
+				}
+				// bytes handed out earlier belong to the caller: later calls must not rewrite them
+				if l.raw != nil && hx(l.raw) != l.hex {
+					c.Violate("C17/serialized-bytes-changed", fmt.Sprintf("bytes returned by an earlier Serialize() of live token %d were overwritten by operation %s on another token", li, op),
+						map[string]interface{}{"op": op, "before": trunc(l.hex, 400), "after": trunc(hx(l.raw), 400)})
+					fam[li].hex = hx(l.raw)
 				}
 			}
 		}
